@@ -1,7 +1,7 @@
 //go:build go1.21
 
 // Package astdump renders a wa-lang AST (internal/ast) without positions: a reflective walk that
-// skips every token.Pos field, the resolution data (*ast.Object, *ast.Scope, File.Unresolved,
+// skips every token.Pos field, parentheses (ParenExpr is transparent), the resolution data (*ast.Object, *ast.Scope, File.Unresolved,
 // File.Imports, File.EmbedMap) and the comment-group attachments (Doc / Comment fields and
 // File.Comments). The comment TEXTS are returned separately as a sorted multiset.
 // Shared by C07 (meaning preservation of formatting) and C08 (de-duplication of loader inputs).
@@ -56,6 +56,11 @@ func (d *dumper) walk(v reflect.Value, depth int, label string) {
 		d.walk(v.Elem(), depth, label)
 	case reflect.Struct:
 		t := v.Type()
+		if t.Name() == "ParenExpr" {
+			// parentheses are layout: the tree structure already encodes the grouping
+			d.walk(v.FieldByName("X"), depth, label)
+			return
+		}
 		d.emit(depth, label+t.Name())
 		d.path = append(d.path, t.Name())
 		for i := 0; i < t.NumField(); i++ {
@@ -110,12 +115,18 @@ func String(lines []Line) string {
 	return b.String()
 }
 
-// Comments returns the sorted multiset of comment texts of a file.
+// Comments returns the sorted multiset of comment texts of a file. White space at the ends of
+// each line of a comment is layout (the printer trims line ends and re-indents block comments)
+// and is removed.
 func Comments(f *ast.File) []string {
 	var out []string
 	for _, g := range f.Comments {
 		for _, c := range g.List {
-			out = append(out, c.Text)
+			lines := strings.Split(c.Text, "\n")
+			for i := range lines {
+				lines[i] = strings.TrimSpace(lines[i])
+			}
+			out = append(out, strings.Join(lines, "\n"))
 		}
 	}
 	sort.Strings(out)
